@@ -113,19 +113,25 @@ func (op Jri) Disassembler(arch *Arch, instr string) (string, error) {
 func (op Jri) Simulate(vm *VM, instr string) error {
 	reg_bits := vm.Mach.R
 	reg := get_id(instr[:reg_bits])
+	var value uint64
 	switch vm.Mach.Rsize {
 	case 8:
-		vm.Registers[reg] = uint8(0)
+		value = uint64(vm.Registers[reg].(uint8))
 	case 16:
-		vm.Registers[reg] = uint16(0)
+		value = uint64(vm.Registers[reg].(uint16))
 	case 32:
-		vm.Registers[reg] = uint32(0)
+		value = uint64(vm.Registers[reg].(uint32))
 	case 64:
-		vm.Registers[reg] = uint64(0)
+		value = vm.Registers[reg].(uint64)
 	default:
 		return errors.New("go simulation only works on 8,16,32 or 64 bits registers")
 	}
-	vm.Pc = vm.Pc + 1
+	// Jump to the location held by the register
+	if value < uint64(len(vm.Mach.Slocs)) {
+		vm.Pc = value
+	} else {
+		vm.Pc = vm.Pc + 1
+	}
 	return nil
 }
 
